@@ -633,6 +633,8 @@ class Prov:
     def _const_root(c):
         if "fn" in c:
             return ("fn", short(c["fn"]))
+        if "tyconst" in c:
+            return ("const", c["tyconst"])
         if "def" in c:
             return ("const", short(c["def"]), c.get("v"))
         if "variant" in c:
